@@ -7,7 +7,7 @@ from typing import Dict, List, Optional
 from ..cfg import CFG
 from ..core import Ctx
 from ..model import body_stmts, canon, dotted, kwarg, norm, walk_no_nested
-from .common import assigned_value, enclosing, resolve_local, stores_to
+from .common import assigned_value, check_sampler_init, enclosing, resolve_local, stores_to
 
 CLS = "StatisticalContinuumSampler"
 PAIRS = {"count": ("_avg_nb_units_per_annotator", "_std_nb_units_per_annotator"),
@@ -223,6 +223,7 @@ def rule_estimators(ctx: Ctx):
         okc = arr and zer and len(inc) == 1 and bool(loops) and norm(loops[-1].iter) == f"{sn}._reference_continuum" and len(nrm) == 1
     ctx.check(okc, "R-C15-3", f, cats[0] if cats else None, "categories = the reference's; weight[c] = (number of units labelled c) / (number of units), same index space (sorted categories)",
               bad_detail="category weights are not label counts over the reference's units divided by the number of units, indexed like the category array", key="categories")
+    check_sampler_init(ctx, "R-C15-3")
     g = ctx.fn(f"{CLS}.init_sampling", "R-C15-3")
     calls = [norm(s.value.func) for s in body_stmts(g.node) if isinstance(s, ast.Expr) and isinstance(s.value, ast.Call)]
     want = {f"{g.self_name}._set_gap_information", f"{g.self_name}._set_duration_information", f"{g.self_name}._set_categories_information",
@@ -230,6 +231,12 @@ def rule_estimators(ctx: Ctx):
     okI = calls and calls[0] == "super().init_sampling" and set(calls[1:]) == want
     sup = [s.value for s in body_stmts(g.node) if isinstance(s, ast.Expr) and isinstance(s.value, ast.Call) and norm(s.value.func) == "super().init_sampling"]
     okI = okI and sup and [norm(a) for a in sup[0].args] == g.params[1:3]
+    if okI:
+        from ..cfg import EXIT
+        gc = CFG(g.node)
+        for s in body_stmts(g.node):
+            if isinstance(s, ast.Expr) and isinstance(s.value, ast.Call) and norm(s.value.func) in want:
+                okI = okI and gc.node_of(s) is not None and gc.must_pass(EXIT, [gc.node_of(s)])
     ctx.check(bool(okI), "R-C15-3", g, None, "init_sampling records reference and ground truth, then measures all four parameter groups on the reference",
               bad_detail=f"init_sampling does not run super().init_sampling(reference, ground truth) followed by the four estimators: {calls}", construct="init_sampling", key="init")
 
